@@ -32,7 +32,7 @@ def snapshot(root):
     return out
 
 
-HOSTILE_NAMES = [b'../../x', b'/', b'a/b', b'.', b'..', b'-rf', b'/etc/pw', b'..\x00', b'x\ny', b'\x01\x02', b'a b', b'~', b'$HOME', b'`id`', b'*', b'A' * 7, b'../x', b'/x', b'x/', b'//']
+HOSTILE_NAMES = [b'..\xafp', b'\xae\xae\xafq', b'\xafabs', b'a\xafb', b'../../x', b'/', b'a/b', b'.', b'..', b'-rf', b'/etc/pw', b'..\x00', b'x\ny', b'\x01\x02', b'a b', b'~', b'$HOME', b'`id`', b'*', b'A' * 7, b'../x', b'/x', b'x/', b'//']
 
 
 WATCHED = ['/', '/tmp', os.path.expanduser('~'), '/var/tmp']
@@ -92,11 +92,11 @@ def run(ctx):
             open(ip, 'wb').write(img)
             hostile = any(not f.shown_name().isalnum() or not chr(f.dir).isalnum() for (_, _, _, f) in d.all_files())
             longdest = 'dest2/sub/' + 'L' * 120 + '/' + 'M' * 110 + '/' + 'N' * 40
-            cmds = [['extract-unused', longdest], ['extract-files', longdest], ['extract-files', 'dest'], ['extract-files', 'dest/'], ['extract-files', 'dest2/sub'], ['extract-unused', 'dest'], ['extract-unused', 'dest/'],
+            cmds = [['extract-unused', 'newdir/sub/deeper'], ['extract-files', 'newdir2/sub'], ['--drive', '1', 'extract-unused', 'newdir3/sub'], ['extract-unused', longdest], ['extract-files', longdest], ['extract-files', 'dest'], ['extract-files', 'dest/'], ['extract-files', 'dest2/sub'], ['extract-unused', 'dest'], ['extract-unused', 'dest/'],
                     ['--dir', '/', 'extract-files', 'dest'], ['--dir', '.', 'extract-files', 'dest/'],
                     ['cat'], ['info', '*.*'], ['free'], ['space'], ['sector-map'], ['show-titles'], ['type', '$.X'], ['dump', '/'], ['list', '..'], ['dump-sector', '0', '0', '0'], ['help']]
             if ctx.tier == 'quick':
-                cmds = cmds[:9] + r.shuffle(cmds[9:])[:4]
+                cmds = cmds[:12] + r.shuffle(cmds[12:])[:4]
             for cmd in cmds:
                 cwd = os.path.join(sb, 'a', 'b')
                 # fresh destination for every command
@@ -119,7 +119,7 @@ def run(ctx):
                 created = sorted(p for p in after if p not in before)
                 changed = sorted(p for p in before if p in after and after[p] != before[p])
                 removed = sorted(p for p in before if p not in after)
-                dest = next((a for a in cmd if a.startswith('dest')), None)
+                dest = next((a for a in cmd if a.startswith(('dest', 'newdir'))), None)
                 before = {p: v for p, v in before.items()}
                 allowed_prefix = os.path.normpath(os.path.join('a', 'b', dest)) + '/' if dest else None
                 bad = [p for p in created if not (allowed_prefix and p.startswith(allowed_prefix) and '/' not in p[len(allowed_prefix):].rstrip('/') )]
@@ -142,6 +142,31 @@ def run(ctx):
                 if bad:
                     key = 'created-outside-destination' if dest else 'non-extract-command-created-files'
                     ctx.violation(key, '`%s` created %s (destination %s)' % (' '.join(cmd), bad[:3], dest), rp)
+        # a catalogue entry named like the image itself, extracted into the directory that holds the image (also through a
+        # symbolic link and another spelling of the path): the image must survive
+        for k2, (entry, how) in enumerate([(b'X.ssd', 'plain'), (b'X.ssd', 'dotdot'), (b'LNK', 'symlink'), (b'X.ssd', 'unused-named')]):
+            f0 = discs.AbsFile(0x24, entry, False, 0, 0, 3, b'payload')
+            f1 = discs.AbsFile(0x24, b'OTHER', False, 0, 0, 2, b'other')
+            d = discs.AbsDisc('dfs', 40, 10)
+            d.cats = [discs.AbsCat(b'SELF', 0, 0, 400, [f0, f1])]
+            img = d.encode(lambda n: bytes(n))
+            sb = os.path.join(root, 'self%d' % k2)
+            os.makedirs(os.path.join(sb, 'w'))
+            ip = os.path.join(sb, 'w', 'X.ssd')
+            open(ip, 'wb').write(img)
+            if how == 'symlink':
+                os.symlink('X.ssd', os.path.join(sb, 'w', 'LNK'))
+            argv = {'plain': ['--file', 'w/X.ssd', 'extract-files', 'w'], 'dotdot': ['--file', 'w/../w/X.ssd', 'extract-files', 'w/'],
+                    'symlink': ['--file', 'w/X.ssd', 'extract-files', 'w'], 'unused-named': ['--file', 'w/X.ssd', 'extract-unused', 'w']}[how]
+            before = snapshot(sb)
+            rc, so, se = vlib.run_cmd([impl['dfs']] + argv, cwd=sb, timeout=30)
+            after = snapshot(sb)
+            ctx.oracle_cases += 1
+            ctx.count('self-overwrite.' + how)
+            ctx.case(('self', how), True, sample={'cmd': argv, 'exit': rc})
+            if after.get('w/X.ssd') != before.get('w/X.ssd'):
+                ctx.violation('image-altered', '`%s` altered the image it was reading (%s): exit %d, stderr %r' % (' '.join(argv), how, rc, se[:120]),
+                              {'argv': argv, 'cwd': 'sandbox', 'image_hex': img.hex(), 'exit': rc, 'stderr': se[-300:].decode('latin-1')})
     finally:
         shutil.rmtree(root, ignore_errors=True)
 
